@@ -38,6 +38,7 @@ Notes: use --offline. The lib is `mqtt_proto`; see src/lib.rs, src/common, src/v
 '''
 
 HINTS = {
+ 10: "This round, prefer changes that present themselves as PERFORMANCE work: a lookup table or branch-free bit trick replacing a match; a bulk copy / `extend_from_slice` / `copy_from_slice` / `chunks` replacing per-item writes or reads; a pre-computed or cached length; a pre-allocation heuristic (`with_capacity`, `reserve`, `resize`, `set_len`); `unsafe` used to skip a check that 'was already done' (`get_unchecked`, `from_utf8_unchecked`, `unwrap_unchecked`, `MaybeUninit::assume_init`, pointer casts); an early exit for the common case; SWAR / word-at-a-time scanning of strings; reading several header or length bytes at once; avoiding a clone by sharing a buffer; `#[inline]`d helper that re-implements a std routine by hand. The optimisation must be wrong only for a specific value, length, alignment, boundary or schedule.",
  9: "This round, prefer changes in the parts of the public API that sit AROUND the byte-level codecs and that the property still depends on: `new` / `new_*` convenience constructors and `Default` impls of packet bodies and property sets; `From` / `TryFrom` / `Into` conversions between bodies, packets, headers and error types; accessors and predicates (`pid()`, `qos()`, `get_type()`, `is_shared()`, `is_sys()`, `is_eof()`, `value()`, `len()`/`is_empty()` of wrapper types); `Header::new` / `Header::decode` / `Header::new_with`; the `VarBytes` container and its `AsRef`/`Deref`; `Packet::encode_len` vs `Packet::encode`; `total_len` / `header_len` / `remaining_len` / `var_int_len`; `PartialEq` / `Hash` / `Ord` / `Clone` impls written by hand; `Display` of types whose text is part of the property. Also welcome: state carried from one packet to the next (a reused poll state object, a reused buffer, a sticky flag) and behaviour that differs between the first and the second call.",
  8: "This round, prefer VALUE-LEVEL changes written as clean, ordinary code that keeps every length, every read/write count and the control-flow shape intact: a field adjusted on its way in or out (clamped with min/max, defaulted when zero, rounded, masked, normalised, lower-cased, trimmed, sorted, de-duplicated, truncated, wrapped with wrapping_*/saturating_* arithmetic); one field written from / decoded into a sibling field of the same type; a value derived from another field instead of being carried as it is; an off-by-one on a stored value (not on a length); an endianness or byte-order slip in a hand-written conversion; a boolean inverted on one side only; an enum mapped through an intermediate integer with one case collapsed. The change may sit in a decoder, an encoder, a constructor (`new`, `new_*`), a `From`/`TryFrom`/`Default` impl or an accessor the property depends on. It must still need a specific value or combination to show.",
  7: "This round, prefer changes whose effect comes from WHERE the new code sits rather than from a wrong constant: a pre-check or fast path placed in front of a correct loop or in the caller of a correct helper; a post-processing step after a correct decoder or encoder (normalising, clamping, de-duplicating, sorting, trimming, defaulting a value that was just decoded or is about to be encoded); a condition on one field that depends on a different field of the same packet; validation moved from a shared helper into only some of its callers (or the reverse); a wrapper type / builder / `From` impl that silently adjusts a value on its way in or out; a cache or memo keyed on too little. Also welcome: asymmetric handling of the two directions (encoder stricter or laxer than decoder), and behaviour that differs between `decode` of a full packet and decoding the same body through the body type's own public `decode_async`/`encode` entry points.",
